@@ -70,7 +70,8 @@ def decode_prints(out):
 class Export:
     def __init__(self, label, cfg, simulate=None, depth=None, workers=2, timeout=1500, limit=None):
         self.label, self.cfg, self.simulate, self.depth, self.workers, self.timeout, self.limit = label, cfg, simulate, depth, workers, timeout, limit
-        self.tokens = []     # list of (origin, full token list)
+        self.tokens = []     # list of (origin, derived token list); the source is context prefix + tokens + suffix
+        self.context = None
         self.nest = None
         self.stats = None
         self.error = None
@@ -89,16 +90,16 @@ def run_export(ctx, ex):
             if "context" in o:
                 context = o["context"]
                 ex.nest = o["nest"]
+                ex.context = {"prefix": context["prefix"], "suffix": context["suffix"]}
             elif "t" in o:
                 if context is None:
                     ex.error = "export %s: token line before the context line" % ex.label
                     return
-                toks = context["prefix"] + o["t"] + context["suffix"]
-                key = "\x00".join(toks)
+                key = "\x00".join(o["t"])
                 if key in seen:
                     continue
                 seen.add(key)
-                ex.tokens.append(("/".join(o["o"]), toks))
+                ex.tokens.append(("/".join(o["o"]), o["t"]))
         ex.stats = {"label": ex.label, "sequences": len(ex.tokens), "generated": res["generated"], "distinct": res["distinct"], "wall_s": res["wall_s"]}
         shutil.rmtree(res["dir"], ignore_errors=True)
     except ToolingError as e:
@@ -124,13 +125,13 @@ def exports_for(ctx):
     # the known construct (b) stays reachable: a pub method, refined argument, non-empty result
     add("stmt-r", start="Stmt", cx="bodyr", maxtok=4 if th else 3)
     # exhaustive: every single damage of the small skeletons
-    add("dmg-stmt", start="Stmt", cx="bodyq", maxtok=4 if th else 3, maxdmg=1, dkinds=dall)
+    add("dmg-stmt", start="Stmt", cx="bodyq", maxtok=4 if th else 3, maxdmg=1, dkinds=dall if th else ("void", "splice", "drop", "dup", "swap"))
     add("dmg-stmt-e", start="Stmt", cx="bodye", maxtok=3 if th else 2, maxdmg=1, dkinds=dall)
-    add("types-var", start="Type", cx="var", maxtok=8 if th else 6, maxdmg=1, dkinds=("void", "drop", "dup"))
-    add("types-field", start="Type", cx="field", maxtok=7 if th else 5, maxdmg=1, dkinds=("void", "swap", "unbalance"))
-    add("consts", start="ConstVal", cx="const", maxtok=6 if th else 5, maxdmg=1, dkinds=("void", "drop", "dup", "swap"))
+    add("types-var", start="Type", cx="var", maxtok=8 if th else 5, maxdmg=1, dkinds=("void", "drop", "dup"))
+    add("types-field", start="Type", cx="field", maxtok=6 if th else 4, maxdmg=1, dkinds=("void", "swap", "unbalance") if th else ("void", "swap"))
+    add("consts", start="ConstVal", cx="const", maxtok=6 if th else 4, maxdmg=1, dkinds=("void", "drop", "dup", "swap"))
     add("decl", start="Decl", cx="top", maxtok=9 if th else 8)
-    add("decl-dmg", start="Decl", cx="top", maxtok=7 if th else 6, maxdmg=1, dkinds=("void", "splice", "drop", "swap"))
+    add("decl-dmg", start="Decl", cx="top", maxtok=6 if th else 5, maxdmg=1, dkinds=("void", "splice", "drop", "swap") if th else ("void", "drop", "swap"))
     add("decl-ctx", start="Decl", cx="decls", maxtok=8 if th else 7)
     # exhaustive: every token-kind pair; triples over the core alphabet
     add("adj2-body", mode="adjacency", cx="bodyq", adjk=2, adjalpha="full")
@@ -189,8 +190,8 @@ def prepare_root(ctx, bins):
 
 def write_tokens(path, seqs):
     with open(path, "w") as f:
-        for origin, toks in seqs:
-            f.write(json.dumps({"o": origin, "t": toks}) + "\n")
+        for origin, cid, toks in seqs:
+            f.write(json.dumps({"o": origin, "c": cid, "t": toks}) + "\n")
 
 
 def load_known_witnesses():
@@ -340,25 +341,34 @@ def run(ctx, only_sources=None):
         if ex.error:
             raise ToolingError(ex.error)
     nest = exps[0].nest
+    contexts = {}
     seqs, seen = [], set()
     for ex in exps:
+        cid = json.dumps(ex.context, sort_keys=True)
+        cid = contexts.setdefault(cid, "c%d" % len(contexts))
         for o, toks in ex.tokens:
-            key = "\x00".join(toks)
+            key = cid + "\x00" + "\x00".join(toks)
             if key not in seen:
                 seen.add(key)
-                seqs.append((o, toks))
-    deepseqs = [s for ex in deep for s in ex.tokens]
+                seqs.append((o, cid, toks))
+    deepseqs = []
+    for ex in deep:
+        cid = json.dumps(ex.context, sort_keys=True)
+        cid = contexts.setdefault(cid, "c%d" % len(contexts))
+        deepseqs += [(o, cid, toks) for o, toks in ex.tokens if "nest" in o]
     ctx.log("TLC exported %d token sequences (+%d deep) from %d configurations" % (len(seqs), len(deepseqs), len(exps) + len(deep)))
     gendir = ctx.subdir("gen")
     nestp = os.path.join(gendir, "nest.json")
     json.dump(nest, open(nestp, "w"))
+    ctxp = os.path.join(gendir, "contexts.json")
+    json.dump({v: json.loads(k) for k, v in contexts.items()}, open(ctxp, "w"))
 
     # 2. render + byte-level inputs from the seed
     tokp = os.path.join(gendir, "tokens.ndjson")
     write_tokens(tokp, seqs)
     srcp = os.path.join(gendir, "sources.ndjson")
     k = 4 if th else 1
-    r = ctx.run([bins["toolreplay"], "gen", "-seed", str(ctx.seed), "-repo", vlib.REPO, "-tokens", tokp, "-nest", nestp, "-out", srcp,
+    r = ctx.run([bins["toolreplay"], "gen", "-seed", str(ctx.seed), "-repo", vlib.REPO, "-tokens", tokp, "-nest", nestp, "-contexts", ctxp, "-out", srcp,
                  "-random", str(3000 * k), "-mut-small", str(5000 * k), "-mut-std", str(1500 * k), "-mut-pkg", str(250 * k),
                  "-flat-every", "7"], timeout=1800)
     if r.returncode != 0:
@@ -374,7 +384,7 @@ def run(ctx, only_sources=None):
     deepp = os.path.join(gendir, "deep.ndjson")
     dtok = os.path.join(gendir, "deeptokens.ndjson")
     write_tokens(dtok, deepseqs)
-    r = ctx.run([bins["toolreplay"], "gen", "-seed", str(ctx.seed), "-repo", vlib.REPO, "-tokens", dtok, "-nest", nestp, "-out", deepp,
+    r = ctx.run([bins["toolreplay"], "gen", "-seed", str(ctx.seed), "-repo", vlib.REPO, "-tokens", dtok, "-nest", nestp, "-contexts", ctxp, "-out", deepp,
                  "-random", "0", "-mut-small", "0", "-mut-std", "0", "-mut-pkg", "0", "-flat-every", "0", "-no-corpus"], timeout=1800)
     if r.returncode != 0:
         raise ToolingError("toolreplay gen (deep) failed: " + r.stderr[-2000:])
